@@ -186,6 +186,15 @@ func Frame(r *prng.R, o FrameOpt) *rec.Rec {
 		}
 		e.SetBool("has_vlan", true).Set("pcp", r.Bits(3)).Set("dei", r.Bits(1)).Set("vid", vid)
 	}
+	if e.Bool("has_vlan") && r.Chance(1, 6) {
+		// stacked tags (Q-in-Q with the 0x8100 TPID): the frame type behind the outer tag is again 0x8100 and the
+		// inner tag travels as opaque payload
+		inner := append([]byte{byte(r.Bits(8)), byte(1 + r.Intn(200))}, r.Bytes(r.Pick(2, 2, 6, 30, 100))...)
+		if r.Bool() { // a second stacked tag
+			inner = append([]byte{inner[0], inner[1], 0x81, 0x00}, inner...)
+		}
+		return e.Set("ethertype", 0x8100).SetB("data", inner)
+	}
 	switch r.Intn(8) {
 	case 0, 1, 2:
 		e.Set("ethertype", 0x0800).SetS("payload", IPv4(r, o))
